@@ -5,7 +5,6 @@ import UscxmlVerif.Proofs.CfgInv
 import UscxmlVerif.Proofs.Nest
 import UscxmlVerif.Proofs.Interval
 import UscxmlVerif.Proofs.Subtree
-import UscxmlVerif.Proofs.ParentsFast
 /-!
 # C03 — the two micro-step engines are interchangeable (what is proved of both alike)
 
@@ -56,14 +55,5 @@ theorem fast_selection_conflict_free_w3c_of_document (d : Doc) (late : Bool) (hw
 theorem both_engines_keep_configuration_a_set (c : Chart) (e : EState) (h : Proofs.CfgInv.EOk c e) :
     Proofs.CfgInv.EOk c (Large.step c e).1 ∧ Proofs.CfgInv.EOk c (Fast.step c e).1 :=
   ⟨Proofs.CfgInv.large_step_ok c e h, Proofs.CfgInv.fast_step_ok c e h⟩
-
-/-- both engines keep every active state's parent active and the configuration inside the chart, step by step, on history-free
-charts (the hypotheses are those of `Properties.C02.parents_stay_active_partial`) -/
-theorem both_engines_keep_parents_partial (c : Chart) (hcoh : Proofs.Struct.Coherent c = true) (hi : Proofs.Interval.IntervalOK c = true)
-    (hk : Proofs.EntryClosed.EntryOk c = true) (hp : Proofs.Parents.SelPlain c = true) (hpf : Proofs.ParentsFast.SelPlainF c = true)
-    (e : EState) (h : Proofs.Parents.PC c e) :
-    Proofs.Parents.PC c (Large.step c e).1 ∧ Proofs.Parents.PC c (Fast.step c e).1 :=
-  ⟨Proofs.Parents.large_step_pc c hcoh hi (Proofs.EntryClosed.eok_of_entryOk hk) hp e h,
-   Proofs.ParentsFast.fast_step_pc c hcoh hi (Proofs.EntryClosed.eok_of_entryOk hk) hpf e h⟩
 
 end UscxmlVerif.Properties.C03
